@@ -330,6 +330,42 @@ def protocol(chk, prog, cls, methods):
                 chk.finding("PROTOCOL", batch.module.rel, batch.qname, stmt_text(s), "; ".join(problems), line=s.lineno)
             else:
                 chk.record("PROTOCOL", site, "batch loop body is exactly %s(Q[t-1], samples[t], config)" % callee.qname)
+    # every row of the batch output comes out of the streaming method (or of the single-frame estimate used by the gyro-less arms): a loop that fills rows
+    # with anything else is a second implementation of the filter, which is exactly what the property forbids unless it is proved equal
+    for loop in ast.walk(batch.node):
+        if not isinstance(loop, ast.For) or not isinstance(loop.target, ast.Name):
+            continue
+        t = loop.target.id
+        for s in ast.walk(loop):
+            if isinstance(s, ast.Assign) and isinstance(s.targets[0], ast.Subscript):
+                tg = s.targets[0]
+                idx = tg.slice.elts[0] if isinstance(tg.slice, ast.Tuple) else tg.slice
+                if not (isinstance(idx, ast.Name) and idx.id == t):
+                    continue
+                v = s.value
+                ok = isinstance(v, ast.Call) and isinstance(v.func, ast.Attribute) and isinstance(v.func.value, ast.Name) and v.func.value.id == "self" \
+                    and (v.func.attr in methods or v.func.attr == "estimate")
+                site = "%s::for %s: %s" % (batch.ref, t, stmt_text(s)[:60])
+                if not ok:
+                    why = "row `%s` of the batch output is computed by `%s`, not by the streaming method (%s): the batch route runs different code from the sample-by-sample route" % (
+                        ast.unparse(tg), ast.unparse(v)[:60], "/".join(methods))
+                    chk.record("PROTOCOL.rows", site, "output rows are produced by the streaming method", verdict="VIOLATION", detail=why)
+                    chk.finding("PROTOCOL.rows", batch.module.rel, batch.qname, "row store %s" % stmt_text(s)[:70], why, line=s.lineno)
+                else:
+                    chk.record("PROTOCOL.rows", site, "row produced by the streaming / per-sample method")
+    # carried state is initialised by the constructor, never by the batch routine: a data-less instance must stream from the same state
+    stream_reads = set()
+    for mname in methods:
+        g = cls.lookup(mname)
+        if g is not None:
+            stream_reads |= {x.attr for x in ast.walk(g.node) if isinstance(x, ast.Attribute) and isinstance(x.ctx, ast.Load) and isinstance(x.value, ast.Name) and x.value.id == "self"}
+    for s in ast.walk(batch.node):
+        if isinstance(s, (ast.Assign, ast.AugAssign)):
+            for tg in (s.targets if isinstance(s, ast.Assign) else [s.target]):
+                if isinstance(tg, ast.Attribute) and isinstance(tg.value, ast.Name) and tg.value.id == "self" and tg.attr in stream_reads and tg.attr not in OUTPUTS:
+                    why = "the batch routine assigns self.%s, which the streaming method reads: an instance created without data never gets this initialisation, so streaming the same samples starts from a different state" % tg.attr
+                    chk.record("PROTOCOL.state", "%s::self.%s" % (batch.ref, tg.attr), "the batch routine does not initialise state the streaming method reads", verdict="VIOLATION", detail=why)
+                    chk.finding("PROTOCOL.state", batch.module.rel, batch.qname, "self.%s assigned in the batch routine" % tg.attr, why, line=s.lineno)
     if n < len(methods):
         chk.error("PROTOCOL: %s._compute_all has %d streaming loops, expected %d" % (cls.name, n, len(methods)))
 
